@@ -1511,7 +1511,8 @@ FUNCTIONS += [
     dict(PLUMB, name='handle_return_action', cxx='handle_return::action (run-time part)', module='HandleReturnAction', pre=PLUMB_DROP,
          header=r'struct handle_return\s*\{.*?\n\s*action\(\s*call_modifier<Matcher, modifier_tag, Parent>&& m,\s*H&& h\)'),
     dict(PLUMB, name='handle_throw_action', cxx='handle_throw::action (run-time part)', module='HandleThrowAction',
-         pre=PLUMB_DROP + [(r'auto handler = throw_handler_t<H, signature>\(h\);', 'MAKE_THROW_HANDLER(h);')],
+         # whatever the local that holds the handler is called
+         pre=PLUMB_DROP + [(r'(?s)auto (\w+) = throw_handler_t<H, signature>\(h\);(.*?)std::move\(\1\)', r'MAKE_THROW_HANDLER(h);\2std::move(handler)')],
          header=r'struct handle_throw\s*\{.*?\n\s*action\(call_modifier<Matcher, modifier_tag, Parent>&& m,\s*H&& h\)'),
     dict(PLUMB, name='set_return', cxx='call_matcher::set_return(std::true_type, h)', module='SetReturn',
          pre=PLUMB_DROP + [(r'new handler\(h\)', 'NEW_HANDLER(h)')],
